@@ -28,7 +28,7 @@ func init() {
 }
 
 func (p *c04) RequiredCounters(string) []string {
-	return []string{"class:byte-grid", "class:random-segments", "class:comment", "class:verbatim", "long-sources"}
+	return []string{"class:byte-grid", "class:random-segments", "class:comment", "class:verbatim", "long-sources", "escape-checks"}
 }
 
 func c04BadSegment(seg string, tagFollows bool) bool {
@@ -157,6 +157,10 @@ func (p *c04) Run(rec *core.Recorder, seed uint64, idx int, tier string) {
 		}
 		idx -= 131072
 	}
+	if idx%24 == 3 {
+		p.escaped(rec, r)
+		return
+	}
 	switch idx % 6 {
 	case 4:
 		p.comment(rec, r)
@@ -262,6 +266,70 @@ func (p *c04) comment(rec *core.Recorder, r *core.Rand) {
 	}
 	if rec.WantSample("comment") {
 		rec.Sample("comment", cs)
+	}
+}
+
+// escaped: the engine's backslash escape (`\{{`) turns a delimiter into literal text. Whether the backslash itself is kept
+// is the engine's business (both readings are accepted); what the statement fixes is that the escaped text is literal text:
+// it appears in the output and nothing in it is evaluated, wherever the text stands.
+func (p *c04) escaped(rec *core.Recorder, r *core.Rand) {
+	esc := []string{"\\{{ v0 }}", "\\{{ secret }}", "\\{% if yes %}", "\\{# note #}", "\\{{ v0|upper }}", "\\{{v0}}"}[r.Intn(6)]
+	pre := []string{"", "A", "syntax: ", "é ", "x\n"}[r.Intn(5)]
+	post := []string{"", "B", ".", " tail", "\n"}[r.Intn(5)]
+	lit := pre + esc + post
+	t := map[string]string{"inc": "I[" + lit + "]", "lib": "{% macro em(v0) %}M[" + lit + "]{% endmacro %}{% macro e0() %}N[" + lit + "]{% endmacro %}", "base": "<{% block b %}dflt{% endblock %}>"}
+	pos := r.Intn(10)
+	switch pos {
+	case 0:
+		t["main"] = "[" + lit + "]"
+	case 1:
+		t["main"] = "{% if yes %}[" + lit + "]{% endif %}"
+	case 2:
+		t["main"] = "{% for i in [1, 2] %}[" + lit + "]{% endfor %}"
+	case 3:
+		t["main"] = "{% macro dm() %}[" + lit + "]{% endmacro %}{{ dm() }}"
+	case 4:
+		t["main"] = "{% macro dm(v0) %}[" + lit + "]{% endmacro %}{{ dm('ARGv') }}{{ _self.dm('ARGv') }}"
+	case 5:
+		t["main"] = "{% import 'lib' as l %}{{ l.em('ARGv') }}{{ l.e0() }}"
+	case 6:
+		t["main"] = "{% from 'lib' import e0, em as x %}{{ e0() }}{{ x(1) }}"
+	case 7:
+		t["main"] = "{% extends 'base' %}{% block b %}[" + lit + "]{% endblock %}"
+	case 8:
+		t["main"] = "{% include 'inc' %}{% include 'inc' with {'v0': 'WITHv'} only %}"
+	default:
+		t["main"] = "{% apply upper %}[" + lit + "]{% endapply %}"
+	}
+	ctx := c04Ctx()
+	ctx["secret"] = "SECRETv"
+	canon := canonSrcs(t)
+	rec.Eval("escaped-delimiter", canon, true)
+	res := renderFresh(t, "main", ctx, nil)
+	cs := map[string]any{"templates": t, "position": pos}
+	if res.Panicked {
+		rec.Violate("panic", "panic@"+res.Site, "engine panicked: "+res.PanicVal, cs, res.Stack)
+		return
+	}
+	if res.Err != nil {
+		rec.Count("escaped-delimiter-errors", 1)
+		rec.Notes["escaped-error"] = core.Trunc(res.Err.Error()+" | "+t["main"], 300)
+		return
+	}
+	rec.Count("escape-checks", 1)
+	up := strings.ToUpper(res.Out)
+	for _, leak := range []string{"V0V", "SECRETV", "ARGV", "WITHV"} {
+		if strings.Contains(up, leak) {
+			rec.Violate("escaped-text-evaluated", fmt.Sprintf("escaped-evaluated:pos%d", pos),
+				fmt.Sprintf("text behind an escaped delimiter was evaluated: output %s contains context data; template %s", core.Q(core.Trunc(res.Out, 200)), core.Q(t["main"])), cs, "")
+			return
+		}
+	}
+	// the literal text must be there (with or without the backslash)
+	body := strings.ToUpper(esc[1:])
+	if !strings.Contains(up, body) {
+		rec.Violate("escaped-text-lost", fmt.Sprintf("escaped-lost:pos%d", pos),
+			fmt.Sprintf("literal text behind an escaped delimiter is missing from the output %s (expected to contain %s); template %s", core.Q(core.Trunc(res.Out, 200)), core.Q(esc[1:]), core.Q(t["main"])), cs, "")
 	}
 }
 
